@@ -21,6 +21,7 @@ import clusterlib as cl
 from vlib import MachineryFailure
 
 KNOWN_PREFIX = 'KNOWN.'
+MachineryFailure = MachineryFailure
 
 
 def e1_run(args):
